@@ -192,7 +192,7 @@ theorem reissue_same_streams {s s' : St} {jobs : List Job} {y' : Sys} {workers t
     have h9 := congrArg (fun l => l[i]?) g9
     rw [show ({ s := s', jobs := [] } : Sys).s.locked0 = s'.locked0 from rfl, hl0] at h9
     simp only [List.getElem?_map, hei, hji, Option.map_some, Option.some.injEq] at h9
-    rw [recOf_jobRec0 job (hm.shape job (List.mem_of_getElem? hji)).ensGe] at h9
+    rw [recOf7_jobRec0 job (hm.shape job (List.mem_of_getElem? hji)).ensGe] at h9
     refine ⟨hf, by rw [ho], h9, ?_⟩
     intro j p q hp hq
     have hz : (job, ord) ∈ jobs.zip s.lockedOrd := by
